@@ -347,9 +347,19 @@ def run(ctx) -> int:
     direct = None
     n_enc = n_tab = 0
 
+    corner = [(configs.STANDARD[ci], d.replace("\r", "")) for d in docs.corner_docs() for ci in (2, 4)]
+
     def probe_enc(r, count):
         nonlocal n_enc
-        for k in range(count):
+        for k in range(-len(corner), count):
+            if k < 0:
+                # the hand-made corner documents first, under the two configurations that switch every rule on
+                cfg, src = corner[k]
+                n_enc += 1
+                d = encoding_property(cfg, src)
+                if d:
+                    return {"config": cfg, "src": src, **d}
+                continue
             cfg = configs.STANDARD[k % len(configs.STANDARD)] if k % 2 else configs.random_config(r)
             src = docs.random_doc(r).replace("\r", "")
             if k % 9 == 0:
